@@ -4,9 +4,9 @@ CONSTANTS
   Types = {"Small", "Big", "STM"}
   Vals = {1, 2}
   Fuses = {0, 1}
-  AFuses = {0, 1}
+  AFuses = {0}
   MCCastForms <- FewCastForms
   CountOps = FALSE
 VIEW absvars
 INVARIANTS TypeOK IsCanon NoLeakNoDangling Independent
-PROPERTIES ObserversPure NoexceptNeverThrow ThrowChangesNothing OthersUntouched CopyCopies SwapSwaps ObserversAgree
+PROPERTIES ObserversPure NoexceptNeverThrow ThrowChangesNothing OthersUntouched CopyCopies SwapSwaps ObserversAgree NonRvalueSourceCopies RvalueMoves
